@@ -390,7 +390,43 @@ def enumerated(tier, seed):
     cases += operand_shape_cases()
     # every looping / branching statement as the FIRST and as the LAST statement of a program and of function bodies of every kind
     cases += [dict(c, family="edge-statement") for c in c04.first_statement_cases() + c04.last_statement_cases()]
+    cases += nested_exit_cases()
     return cases
+
+
+def nested_exit_cases():
+    """an `if` whose body ENDS in another `if` without else whose body ends in an exit (return / break / continue): the frames of
+    both must be closed on every path - outer true / inner false included - in a plain function, in a while loop, in a from loop
+    with a fresh and with a reused counter, with the outer `if` plain, with an else, as the else part and as an else-if link"""
+    out = []
+    ind = lambda lines, n: ["\t" * n + l for l in lines]
+    for loop in ("none", "while", "from-fresh", "from-reused"):
+        for ex in ("return 1", "break", "continue"):
+            if loop == "none" and ex != "return 1":
+                continue
+            for outer in ("if", "if-else", "in-else", "else-if", "three-deep"):
+                inner = ["if b > 0 {", "\t" + ex, "}"]
+                if outer == "if":
+                    blk = ["if a > 0 {", "\tprint \"outer\""] + ind(inner, 1) + ["}"]
+                elif outer == "if-else":
+                    blk = ["if a > 0 {", "\tprint \"outer\""] + ind(inner, 1) + ["} else {", "\tprint \"other\"", "}"]
+                elif outer == "in-else":
+                    blk = ["if a > 5 {", "\tprint \"other\"", "} else {", "\tprint \"outer\""] + ind(inner, 1) + ["}"]
+                elif outer == "else-if":
+                    blk = ["if a > 5 {", "\tprint \"other\"", "} else if a > 0 {", "\tprint \"outer\""] + ind(inner, 1) + ["}"]
+                else:
+                    blk = ["if a > 0 {", "\tif a > 0 {"] + ind(inner, 2) + ["\t}", "}"]
+                if loop == "none":
+                    body = blk
+                elif loop == "while":
+                    body = ["go = 0", "while go < 2 {", "\tgo = go + 1"] + ind(blk, 1) + ["\tprint \"tail\"", "}"]
+                elif loop == "from-fresh":
+                    body = ["from 0 to 2, i {"] + ind(blk, 1) + ["\tprint i", "}"]
+                else:
+                    body = ["i = 0", "from 0 to 2, i {"] + ind(blk, 1) + ["\tprint i", "}"]
+                src = "f = fn(a: int, b: int) -> int {\n" + "\n".join(ind(body, 1)) + "\n\treturn 0\n}\n" + "".join("print f(%d, %d)\n" % ab for ab in ((1, 0), (1, 1), (0, 0), (0, 1))) + "print \"@end\"\n"
+                out.append({"family": "nested-exit", "files": {"main.ms": src}, "origin": "nested-exit %s/%s/%s" % (loop, ex.split(" ")[0], outer)})
+    return out
 
 
 def operand_shape_cases():
